@@ -773,7 +773,16 @@ func (it *Interp) strHasPrefix(s, pre *StrV) *Term {
 	if ts.op == "app" && ts.name == "concat" && ts.args[0] == tp {
 		return TTrue
 	}
-	return App("hasprefix", SBool, ts, tp)
+	hp := App("hasprefix", SBool, ts, tp)
+	if !it.p.lenAx[hp.id] {
+		// a prefix is no longer than the string, and a prefix of the same length is the string
+		it.p.lenAx[hp.id] = true
+		ls, lp := it.strLenTerm(ts), it.strLenTerm(tp)
+		it.p.assertAxiom(Implies(hp, BVCmp("bvule", lp, ls)))
+		it.p.assertAxiom(Implies(And(hp, Eq(lp, ls)), Eq(ts, tp)))
+		it.p.assertAxiom(Implies(Eq(ts, tp), hp))
+	}
+	return hp
 }
 
 func (it *Interp) strHasSuffix(s, suf *StrV) *Term {
